@@ -284,8 +284,12 @@ func (c *checkSchema) collectAllowedJsonTypes(node schema.Node, ss map[string]sc
 		if _, ok := c.foundTypeNames[typeName]; ok {
 			panic(errors.Format(errors.ErrImpossibleToDetermineTheJsonTypeDueToRecursion, typeName))
 		}
+		// foundTypeNames holds the types on the current path only: a type reached
+		// along two different paths (@a | @b where @a itself lists @b) is not a
+		// recursion.
 		c.foundTypeNames[typeName] = struct{}{}
 		c.collectAllowedJsonTypes(getType(typeName, c.rootSchema, ss).RootNode(), ss) // can panic
+		delete(c.foundTypeNames, typeName)
 	}
 }
 
